@@ -233,9 +233,9 @@ func vCheckAdd(log []vCall, sel vSel, container string, fail []bool, base int) (
 	return base + n, false
 }
 
-// BOUND: 3 configured networks; 6 ways a pod selects networks (default list, ENI network, comma form with and without @ifname and namespace, JSON form with interface) ; one container; symbolic failure plan over the first 8 plugin invocations; sequence ADD, DEL, DEL, DEL
+// BOUND: 3 configured networks; 6 ways a pod selects networks (default list, ENI network, comma form with and without @ifname and namespace, JSON form with interface) ; one container; symbolic failure plan over the first 8 (thorough: 11) plugin invocations; sequence ADD, DEL, DEL, DEL
 func VerifC12_q_addDelSequence() {
-	fail := vAnyFailPlan(8)
+	fail := vAnyFailPlan(8 + 3*verifTier())
 	dir := vSetup(fail)
 	defer os.RemoveAll(dir)
 	g := vNewGalaxy()
